@@ -194,6 +194,27 @@ func TestVerif_ModesFS(t *testing.T) {
 				}
 			}
 		}
+		// the attributes of an OPEN file are those of the file, whatever has meanwhile happened to its name
+		{
+			hroot := prepRoot(t, "modes-handle")
+			pa, pb := filepath.Join(hroot, "a.dat"), filepath.Join(hroot, "b.dat")
+			os.WriteFile(pa, []byte("0123456789"), 0o640)
+			os.Chtimes(pa, fixedTime, fixedTime)
+			if hf, err := cl.Open(pa); err == nil {
+				cl.Rename(pa, pb)
+				os.WriteFile(pa, []byte("xyz"), 0o600) // another file takes over the old name
+				want, _ := os.Stat(pb)
+				got, err := hf.Stat()
+				if err != nil {
+					tr.emit("FsStat", kv{"via": "Fstat", "name": "renamed-while-open", "size": false, "mode": false, "mtime": false, "owner": false, "longok": true, "err": err.Error()})
+				} else {
+					e := sameInfo(got, want)
+					e["via"], e["name"], e["longok"] = "Fstat", "renamed-while-open", true
+					tr.emit("FsStat", e)
+				}
+				hf.Close()
+			}
+		}
 		fis, err := cl.ReadDir(root)
 		if err != nil {
 			t.Fatalf("ReadDir: %v", err)
